@@ -874,6 +874,7 @@ func modelCfg(rt *rapid.T) idl.Cfg {
 	// constants carry nothing of a call; without them the programs that C01/C06's listed
 	// findings about constant initialisers make unusable (rejected / not compiling) do not occur
 	c.Consts = false
+	c.ArgOptional = true // `optional` arguments are default-requiredness arguments
 	// base services in the same Go package (two files, one namespace) and in packages named after the file
 	c.SharedNS = rapid.IntRange(0, 3).Draw(rt, "sharedns") == 0
 	c.NoNamespace = true
